@@ -1681,8 +1681,6 @@ Lemma rel_res_bind {A B A' B'} (R : A -> B -> Prop) (S : A' -> B' -> Prop) r1 r2
 Proof.
   intros H1 H2. destruct r1, r2; simpl in *; try contradiction; auto.
 Qed.
-Lemma rel_res_eq {A B} (S : A -> B -> Prop) (r : res A) (k1 : A -> res B) : True -> True.
-Proof. auto. Qed.
 Lemma rel_res_same {A B C} (S : B -> C -> Prop) (r : res A) (k1 : A -> res B) (k2 : A -> res C) :
   (forall a, rel_res S (k1 a) (k2 a)) -> rel_res S (bind r k1) (bind r k2).
 Proof. intro H. destruct r; simpl; auto. Qed.
@@ -1789,7 +1787,7 @@ Section SimBlocks.
     rel_res simP3 (case_go pol ev blk e ws c1 out m) (case_go pol ev blk e ws c2 out m).
   Proof.
     intros He. induction ws as [|[es b] ws IH]; intros Hi c1 c2 out m Hc; simpl.
-    - repeat split; try reflexivity; exact Hc.
+    - simpl. unfold simP3; simpl. split; [exact Hc|split; reflexivity].
     - rewrite (Hev c1 c2 e Hc He). apply rel_res_same. intro lv.
       rewrite (case_any_sim c1 c2 lv es Hc) by (eapply incl_app_l; exact Hi).
       apply rel_res_same. intros [].
@@ -1868,8 +1866,8 @@ Proof.
   induction f as [|f IH]; intros c1 c2 p Hc Hi; simpl; [exact I|].
   destruct p as [|s rest]; [split; [exact Hc|reflexivity]|].
   unfold roots_b in Hi; simpl in Hi.
-  eapply rel_res_bind.
-  - apply exec_stmt_sim; [intros; apply (eval_sim pol L); assumption|apply run_block_sim, IH|exact Hc|eapply incl_app_l; exact Hi].
+  eapply rel_res_bind with (R := simP L).
+  - apply (exec_stmt_sim pol L); [intros; apply (eval_sim pol L); assumption|apply run_block_sim, IH|exact Hc|eapply incl_app_l; exact Hi].
   - intros a b [Ha Hb]. eapply rel_res_bind; [apply IH; [exact Ha|eapply incl_app_r; exact Hi]|].
     intros a' b' [Ha' Hb']. simpl. rewrite Hb, Hb'. split; [exact Ha'|reflexivity].
 Qed.
